@@ -45,20 +45,23 @@ ASSUMPTIONS = [
     "a '{tns}name' key/path segment in the dict/HTTP protocols may route to name or be not-found",
     "a URL whose last segment names a method that declares HttpPatterns which the request does not "
     "match may route to that method or be not-found (the name-based route is not documented either way)",
-    "HttpRpc and MessagePackRpc do not support bare methods (documented NotImplementedError / positional "
-    "parameter list): bare methods are generated for the XML family and Json/Yaml/MessagePackDocument only",
+    "HttpRpc does not support bare methods (documented NotImplementedError 'deserializing non complex types "
+    "is not yet implemented') and MessagePackRpc is written for wrapped messages only (positional parameter "
+    "list in, out_message._type_info out): bare methods are generated for the XML family and "
+    "Json/Yaml/MessagePackDocument",
     "HttpPattern(host=...) cannot be constructed on Python 3 (TypeError in _compile_host_pattern): hosts are not generated",
     "POST/PUT/PATCH to HttpRpc need werkzeug (not installed): verbs are GET, DELETE, OPTIONS",
     "pattern addresses are pairwise non-overlapping; literal-versus-wildcard priority is not examined",
     "explicit pattern addresses are regular expressions by example (examples/multiple_protocols escapes "
     "the dot): only [a-z0-9/] and <name>/{name} placeholders are generated in them; an address left to "
     "default to the method name is a literal name",
-    "Application(...) may reject a spec for reasons other than routing (message type-name clashes, "
-    "method-key clashes of same-named service classes); such specs are counted, not judged",
+    "specs in which an output message name '<key>Response' equals another message name are not generated "
+    "(schema-name clash, not a routing clash); Application(...) may also refuse same-named service classes "
+    "with a common function name (check_unique_method_keys): counted, not judged",
 ]
 EXHAUSTIVE = {
-    "quick": ["13 fixed adversarial applications x 8 protocol families x every service order x every request kind"],
-    "thorough": ["13 fixed adversarial applications x 8 protocol families x every service order x every request kind"],
+    "quick": ["up to 19 fixed adversarial applications x 8 protocol families x every service order x every request kind"],
+    "thorough": ["up to 19 fixed adversarial applications x 8 protocol families x every service order x every request kind"],
 }
 MAXTASKSPERCHILD = 2
 
@@ -138,7 +141,7 @@ def how_differs(req, form, actual):
         return "suffix-removed"
     if req and actual.endswith(req):
         return "prefix-removed"
-    if len(req) == len(actual) and sum(a != b for a, b in zip(req, actual)) == 1:
+    if len(req) == len(actual):
         return "substitution"
     if edit_distance(req, actual) <= 2:
         return "edit<=2"
@@ -188,19 +191,20 @@ class Ref(object):
 
     # -- reasons for which Application(...) may legitimately refuse a duplicate-free spec
     def type_name_clash(self):
-        seen = {}
+        """an output message ('<key>Response') named like another message of the application:
+        a clash of schema names that has nothing to do with request routing (wrapped messages are
+        refused by Application(...), bare ones make the published schema ambiguous)"""
+        ins = set(self.prim)
+        outs = {}
         for si, s in enumerate(self.spec["services"]):
             if s.get("aux"):
                 continue            # classes of auxiliary methods are not added to the interface
             for m in s["methods"]:
-                tn = []
-                if not m.get("bare"):
-                    tn.append(public_name(m))
-                    tn.append(m["key"] + "Response")
-                for t in tn:
-                    if t in seen:
-                        return True
-                    seen[t] = 1
+                o = m["key"] + "Response"
+                if o in ins:
+                    return True
+                if outs.setdefault(o, public_name(m)) != public_name(m):
+                    return True     # same function name, different public names
         return False
 
     def method_key_clash(self):
@@ -699,10 +703,9 @@ def judge(spec, ref, fam, r, exp, got, where):
             fails.append(("C11|wrong-function|%s|%s" % (fam, rel),
                           desc + "; expected %r" % (want,)))
         elif exp[0] == "run":
-            sig = "C11|registered-not-routed|%s|%s" % (fam, exp[3])
-            if got["escaped"] is not None:
-                sig += "|" + fault_class(got)
-            fails.append((sig, desc + "; expected %r" % (want,)))
+            how = exp[3] if got["escaped"] is None else fault_class(got)
+            fails.append(("C11|registered-not-routed|%s|%s" % (fam, how),
+                          desc + "; registered through its %s; expected %r" % (exp[3], want)))
         return fails
     if others:
         fails.append(("C11|extra-function-ran|%s|%s" % (fam, rel), desc + "; expected %r" % (want,)))
@@ -745,6 +748,9 @@ def run_case(case, rec):
     fam = family_of(spec, ref)
     nsvc = len(spec["services"])
     all_fails = []
+    if ref.type_name_clash():
+        rec.case(case, classes=["spec:message-name-clash-skipped"])
+        return all_fails
     reqs = plan_requests(spec, ref)
     dup = bool(ref.dups)
     excusable = ref.type_name_clash() or ref.method_key_clash()
@@ -845,10 +851,7 @@ def variants(stem):
 
 
 def _no_incidental_clash(spec):
-    r = Ref(spec)
-    if r.dups:
-        return True
-    return not r.type_name_clash()
+    return not Ref(spec).type_name_clash()
 
 
 @st.composite
@@ -1019,6 +1022,8 @@ def fixed_specs(prot):
     add([_svc("A", _m("m0")), _svc("B", _m("m1", inmsg="m0"), _m("M0"))])
     add([_svc("A", _m("m0")), _svc("B", _m("m1", op="m0"), _m("m0x"))])
     if bare_ok:
+        add([_svc("A", _m("b0", "int", bare=True), _m("B0", "str", bare=True)),
+             _svc("B", _m("b0x"), _m("k9", "int", bare=True, inmsg="b0_"))])
         add([_svc("A", _m("m0", "int", bare=True), _m("m1", "int", bare=True, inmsg="m0"),
                   _m("M0", "int")), _svc("B", _m("m0x"))])
         add([_svc("A", _m("m0", "int", bare=True), _m("m0x")),
